@@ -162,7 +162,7 @@ def ad_render(how):
             if not isinstance(v, str):
                 return {}
             return {'out': cps(v), 'valid': b(x.is_formatting_valid()), 'parsable': b(x.is_formatting_parsable())}
-        return {'op': 'render', 'a': {'how': how, 'spec': [], 'flags': fl}, 'rkind': 'scalar', 'inplace': False, 'obs': obs}
+        return {'op': 'render', 'a': {'how': how, 'spec': [], 'flags': fl, 'drift': 1}, 'rkind': 'scalar', 'inplace': False, 'obs': obs}
     return ad
 
 
